@@ -10,13 +10,14 @@ from .common import workdir
 
 
 class WSession:
-    def __init__(self, kinds, eol="\n"):
+    def __init__(self, kinds, eol="\n", raw=False):
         from gscrib import GCodeBuilder
         from gscrib.writers import BaseWriter, FileWriter
         self.kinds = list(kinds)
         self.eol = eol
         self.dir = tempfile.mkdtemp(prefix="c14_", dir=workdir())
-        self.g = GCodeBuilder(line_endings={"\n": "\\n", "\r\n": "\\r\\n"}[eol])
+        # the ending is configured either in its escaped spelling ("\\r\\n") or as the real characters (raw; added after seed C08g)
+        self.g = GCodeBuilder(line_endings=eol if raw else {"\n": "\\n", "\r\n": "\\r\\n", "\r": "\\r"}[eol])
         try:
             while True:
                 self.g.remove_writer(self.g.get_writer(0))
@@ -152,8 +153,8 @@ class WSession:
 TEXTS = ["G1 X1", "G0 Z5 ", "M3 S100", "T1 M6", "G1 X1 Y2 ; café", "über 中文", "note ", "G4 P1", "", "  "]   # also: an empty statement (a blank separator line)
 
 
-def run_descs(descs, kinds, eol="\n", meta=None):
-    s = WSession(kinds, eol)
+def run_descs(descs, kinds, eol="\n", meta=None, raw=False):
+    s = WSession(kinds, eol, raw)
     for d in descs:
         s.apply(d)
     return s.finish(meta)
